@@ -28,6 +28,7 @@ RULE = (
 )
 ASSUMPTIONS = [
     "grid connectivity tables are those verified by C07",
+    "every case first builds and uses the operators of a same-shape grid with the other voxel sizes (history of length 2)",
     "dyadic data: comparisons exact; harmonic mean compared to 1e-14 relative",
 ]
 
@@ -59,6 +60,17 @@ def run_case(case, r):
     tier = case["tier"]
     cls = shape_class(shape)
     vs = np.ones(dim) if case["vs"] == "unit" else np.array(VS[dim])
+    # start from a non-initial process state: operators of a grid of the SAME shape but the
+    # OTHER voxel sizes (and of the transposed shape) have been built and used before, so any
+    # state kept between grids (module-level caches keyed too coarsely) shows up
+    for oshape, ovs in ((shape, list(VS[dim]) if case["vs"] == "unit" else 1.0), (shape[::-1], 1.0 if case["vs"] == "unit" else list(VS[dim]))):
+        og = darsia.Grid(oshape, ovs)
+        darsia.FVDivergence(og), darsia.FVMass(og, "cells"), darsia.FVMass(og, "faces")
+        if og.num_faces:
+            darsia.face_to_cell(og, np.ones(og.num_faces))
+            darsia.cell_to_face_average(og, np.ones(oshape), "harmonic")
+            if dim >= 2:
+                darsia.FVFullFaceReconstruction(og)(np.ones(og.num_faces))
     g = darsia.Grid(shape, 1.0 if case["vs"] == "unit" else list(VS[dim]))
 
     def cell(clause):
